@@ -118,8 +118,8 @@ def sites():
     for ctype, kind, w in INT_TYPES:
         bl = int_bounds(kind, w)
         for j, (mn, mx) in enumerate(bl):
-            # the first two bound pairs (type limits and friends) get many bases, the rest two each
-            nbt = 8 if j < 2 else 2
+            # the first two bound pairs (type limits and friends) get many bases, the rest one or two each
+            nbt = 6 if j < 2 else (2 if j % 2 == 0 else 1)
             for t in range(nbt):
                 base, tr = BASE_TRAIL[(rot + t) % len(BASE_TRAIL)]
                 fl = rot + t
@@ -144,30 +144,44 @@ def sites():
     return out
 
 
+NPARTS = 4
+
+
 def render_inc(sl):
-    o = ["/* GENERATED by tools/gen_parsenum_sites.py - do not edit.  %d call sites. */" % len(sl)]
-    for i, s in enumerate(sl):
-        if s["form"] == "p2":
-            call = "PARSENUM(&x, s)"
-        elif s["form"] == "p4":
-            call = "PARSENUM(&x, s, %s, %s)" % (s["cmin"], s["cmax"])
-        elif s["form"] == "ex4":
-            call = "PARSENUM_EX(&x, s, %d, %d)" % (s["base"], s["trailing"])
-        else:
-            call = "PARSENUM_EX(&x, s, %s, %s, %d, %d)" % (s["cmin"], s["cmax"], s["base"], s["trailing"])
-        if s["kind"] == "f":
-            init, rep = "0", "report_f(rc, (double)x)"
-        elif s["kind"] == "u":
-            init, rep = "0x5a", "report_u(rc, (uintmax_t)x)"
-        else:
-            init, rep = "0x5a", "report_s(rc, (intmax_t)x)"
-        o.append("static void site_%d(const char * s) { %s x = %s; int rc = %s; %s; }"
-                 % (i, s["ctype"], init, call, rep))
-    o.append("static const struct site sites[] = {")
-    for i, s in enumerate(sl):
-        o.append("\t{ \"%s\", site_%d }," % (s["desc"], i))
-    o.append("};")
+    """The sites are split into NPARTS translation units (harness/drv_parsenum_part.c compiled with
+    -DSITES_PART=k) so that they compile in parallel."""
+    o = ["/* GENERATED by tools/gen_parsenum_sites.py - do not edit.  %d call sites in %d parts. */"
+         % (len(sl), NPARTS)]
+    per = (len(sl) + NPARTS - 1) // NPARTS
     o.append("#define NSITES %d" % len(sl))
+    o.append("#define SITES_PER_PART %d" % per)
+    o.append("#define SITES_NPARTS %d" % NPARTS)
+    for part in range(NPARTS):
+        o.append("#if SITES_PART == %d" % part)
+        chunk = list(enumerate(sl))[part * per:(part + 1) * per]
+        for i, s in chunk:
+            if s["form"] == "p2":
+                call = "PARSENUM(&x, s)"
+            elif s["form"] == "p4":
+                call = "PARSENUM(&x, s, %s, %s)" % (s["cmin"], s["cmax"])
+            elif s["form"] == "ex4":
+                call = "PARSENUM_EX(&x, s, %d, %d)" % (s["base"], s["trailing"])
+            else:
+                call = "PARSENUM_EX(&x, s, %s, %s, %d, %d)" % (s["cmin"], s["cmax"], s["base"], s["trailing"])
+            if s["kind"] == "f":
+                init, rep = "0", "report_f(rc, (double)x)"
+            elif s["kind"] == "u":
+                init, rep = "0x5a", "report_u(rc, (uintmax_t)x)"
+            else:
+                init, rep = "0x5a", "report_s(rc, (intmax_t)x)"
+            o.append("static void site_%d(const char * s) { %s x = %s; int rc = %s; %s; }"
+                     % (i, s["ctype"], init, call, rep))
+        o.append("const struct site sites_part%d[] = {" % part)
+        for i, s in chunk:
+            o.append("\t{ \"%s\", site_%d }," % (s["desc"], i))
+        o.append("\t{ NULL, NULL }")
+        o.append("};")
+        o.append("#endif")
     return "\n".join(o) + "\n"
 
 
